@@ -653,6 +653,45 @@ var c05BoundaryOps = []struct {
 			e.Languages = []string{""}
 		}
 	}},
+	// every instant of the container carried in a non-UTC location (same instant): what a value
+	// built from time.Now() on a machine outside UTC, or decoded from "…+09:00", looks like
+	{"times=+09:00", func(o *osm.OSM) { c05Relocate(o, time.FixedZone("", 9*3600)) }},
+	{"times=-05:30", func(o *osm.OSM) { c05Relocate(o, time.FixedZone("minus", -(5*3600+1800))) }},
+	{"times=+05:45", func(o *osm.OSM) { c05Relocate(o, time.FixedZone("NPT", 5*3600+2700)) }},
+	{"times=time.Local", func(o *osm.OSM) { c05Relocate(o, time.Local) }},
+}
+
+var c05TimeType = reflect.TypeOf(time.Time{})
+
+// c05Relocate moves every non-zero time.Time reachable from v (fields, pointers, slices) into
+// loc without changing the instant.
+func c05Relocate(v any, loc *time.Location) {
+	var walk func(x reflect.Value)
+	walk = func(x reflect.Value) {
+		switch x.Kind() {
+		case reflect.Ptr, reflect.Interface:
+			if !x.IsNil() {
+				walk(x.Elem())
+			}
+		case reflect.Struct:
+			if x.Type() == c05TimeType {
+				if t := x.Interface().(time.Time); !t.IsZero() && x.CanSet() {
+					x.Set(reflect.ValueOf(t.In(loc)))
+				}
+				return
+			}
+			for i := 0; i < x.NumField(); i++ {
+				if x.Type().Field(i).PkgPath == "" {
+					walk(x.Field(i))
+				}
+			}
+		case reflect.Slice:
+			for i := 0; i < x.Len(); i++ {
+				walk(x.Index(i))
+			}
+		}
+	}
+	walk(reflect.ValueOf(v))
 }
 
 // ---------------------------------------------------------------------------------------
@@ -1194,6 +1233,8 @@ type c05Run struct {
 	configs   []c05Config
 	docSig    string
 	boundaryP float64 // probability of each value-side boundary operator in the round-trip flows
+	// rewrite: also write back what was decoded from the independent document and read it again
+	rewrite bool
 	// null members of the document under check (independent-document flow only), see nullState
 	nullTop map[string]bool
 	soft    func(class string)
@@ -1451,6 +1492,18 @@ func (run *c05Run) checkDoc(d *jsonw.Doc, st *jsonw.Style, r *gen.R, standalone 
 		c05Compare(rp, "indep", eq.Clone(ex.o), got.(*osm.OSM), ex.visUnset)
 	}, true)
 	finish()
+	if run.rewrite {
+		// write back what the library decoded from the independent document (its times carry
+		// the locations the document's spellings gave them) and read that again
+		decoded := &osm.OSM{}
+		var err error
+		// (a panic or an error here has already been reported by the flow above)
+		if pan := c05With(c05Default, func(*c05Codec) { err = json.Unmarshal(text, decoded) }); pan == "" && err == nil {
+			run.marshalFlow("rewrite", c05BoundsClass(decoded), decoded, func(rp *c05Rep, doc any) { c05ShapeOSM(rp, "rewrite/", doc, decoded) },
+				func() any { return &osm.OSM{} }, func(rp *c05Rep, got any) { c05Compare(rp, "rewrite", decoded, got.(*osm.OSM), nil) }, false)
+			run.res.Add("documents_rewritten", 1)
+		}
+	}
 
 	// marshal round trip of the value the document denotes, plus annotations
 	v := eq.Clone(ex.o)
@@ -1548,6 +1601,16 @@ func (run *c05Run) checkChange(c *jsonw.ChangeDoc, st *jsonw.Style, r *gen.R) {
 		}
 		c05CompareChange(rp, "indep/change", w, g)
 	}, blocks > 0)
+	if run.rewrite {
+		decoded := &osm.Change{}
+		var err error
+		if pan := c05With(c05Default, func(*c05Codec) { err = json.Unmarshal(text, decoded) }); pan == "" && err == nil {
+			run.marshalFlow("rewrite/change", c05BoundsClass(decoded.Create, decoded.Modify, decoded.Delete), decoded,
+				func(rp *c05Rep, doc any) { c05ShapeChange(rp, doc, decoded) }, func() any { return &osm.Change{} },
+				func(rp *c05Rep, got any) { c05CompareChange(rp, "rewrite/change", decoded, got.(*osm.Change)) }, false)
+			run.res.Add("documents_rewritten", 1)
+		}
+	}
 
 	v := eq.Clone(want)
 	for _, o := range []*osm.OSM{v.Create, v.Modify, v.Delete} {
@@ -2156,7 +2219,16 @@ func c05Exec(c fw.Case) *fw.Result {
 		panic("harness: codec variables not restored by an earlier case")
 	}
 	r := gen.New(c.Seed, "c05")
+	if tz := c.Int("tz"); tz != 0 && c.Kind != "concurrent" {
+		// the case runs on a "machine" whose local zone is tz minutes east of UTC (cases of a
+		// child process run one after another; restored when the case ends)
+		saved := time.Local
+		time.Local = time.FixedZone("CaseLocal", int(tz)*60)
+		defer func() { time.Local = saved }()
+		res.Put("local_zones", fmt.Sprint(tz))
+	}
 	run := &c05Run{res: res, configs: []c05Config{c05Default, c05Custom, c05Reformer}}
+	run.rewrite = c.Int("rewrite") == 1
 	if c.Int("allconfigs") == 1 {
 		run.configs = c05AllConfigs
 	}
@@ -2454,12 +2526,12 @@ func c05Exec(c fw.Case) *fw.Result {
 
 func c05Cases(tier string, seed uint64) []fw.Case {
 	var cs []fw.Case
-	cs = append(cs, fw.Case{Kind: "min", Seed: gen.Sub(seed, "c05min", 0), P: map[string]int64{"allconfigs": 1}})
+	cs = append(cs, fw.Case{Kind: "min", Seed: gen.Sub(seed, "c05min", 0), P: map[string]int64{"allconfigs": 1, "rewrite": 1}})
 	for vk := 0; vk < 4; vk++ {
 		cs = append(cs, fw.Case{Kind: "top", Seed: gen.Sub(seed, "c05top", vk), P: map[string]int64{"vk": int64(vk), "allconfigs": 1}})
 	}
 	for k := range jsonw.Kinds {
-		cs = append(cs, fw.Case{Kind: "field", Seed: gen.Sub(seed, "c05field", k), P: map[string]int64{"kind": int64(k), "allconfigs": 1}})
+		cs = append(cs, fw.Case{Kind: "field", Seed: gen.Sub(seed, "c05field", k), P: map[string]int64{"kind": int64(k), "allconfigs": 1, "rewrite": 1, "tz": []int64{0, 540}[k%2]}})
 	}
 	cs = append(cs, fw.Case{Kind: "unknown-type", Seed: gen.Sub(seed, "c05unk", 0)})
 	sizes := []int64{255, 256, 257, 511, 512, 513, 1023, 1024, 1025, 1027, 2047, 2048, 2049, 2050, 4095, 4096, 4097, 4098, 4099, 8193}
@@ -2478,7 +2550,7 @@ func c05Cases(tier string, seed uint64) []fw.Case {
 	}
 	for b := 0; b < 4; b++ {
 		for sl := 0; sl < 4; sl++ { // same seed: the four slices share one base container
-			cs = append(cs, fw.Case{Kind: "boundary-value", Seed: gen.Sub(seed, "c05bval", b), P: map[string]int64{"base": int64(b), "slice": int64(sl), "allconfigs": 1}})
+			cs = append(cs, fw.Case{Kind: "boundary-value", Seed: gen.Sub(seed, "c05bval", b), P: map[string]int64{"base": int64(b), "slice": int64(sl), "allconfigs": 1, "tz": []int64{0, 540, -330, 345}[sl]}})
 		}
 	}
 	nRand, docs, nChange, nBDoc := 84, 8, 10, 12
@@ -2492,10 +2564,13 @@ func c05Cases(tier string, seed uint64) []fw.Case {
 		if i%2 == 1 {
 			p["allconfigs"] = 1
 		}
+		if i%2 == 0 {
+			p["tz"] = -330
+		}
 		cs = append(cs, fw.Case{Kind: "forms", Seed: gen.Sub(seed, "c05forms", i), P: p})
 	}
 	for i := 0; i < nRet; i++ {
-		cs = append(cs, fw.Case{Kind: "retained", Seed: gen.Sub(seed, "c05ret", i), P: map[string]int64{"docs": 6}})
+		cs = append(cs, fw.Case{Kind: "retained", Seed: gen.Sub(seed, "c05ret", i), P: map[string]int64{"docs": 6, "tz": []int64{0, 540}[i%2]}})
 	}
 	creps := map[string]int{"": reps, "race": (reps + 1) / 2} // the race build is ~10x slower
 	for i, v := range []string{"", "", "race", "race"} {
@@ -2507,6 +2582,12 @@ func c05Cases(tier string, seed uint64) []fw.Case {
 			"zerop": []int64{100, 30, 60, 15}[i%4], "maxelem": []int64{2, 6}[i%2], "bp": []int64{0, 15}[(i/2)%2]}
 		if i%4 == 1 {
 			p["allconfigs"] = 1
+		}
+		if i%2 == 0 {
+			p["rewrite"] = 1
+		}
+		if i%3 == 2 {
+			p["tz"] = 540
 		}
 		cs = append(cs, fw.Case{Kind: "boundary-doc", Seed: gen.Sub(seed, "c05bdoc", i), P: p})
 	}
@@ -2527,12 +2608,21 @@ func c05Cases(tier string, seed uint64) []fw.Case {
 		if i%3 == 2 {
 			p["bp"] = 8
 		}
+		if i%2 == 1 {
+			p["rewrite"] = 1
+		}
+		if i%6 == 5 {
+			p["tz"] = []int64{540, -330, 345}[(i/6)%3]
+		}
 		cs = append(cs, fw.Case{Kind: "rand", Seed: gen.Sub(seed, "c05rand", i), P: p})
 	}
 	for i := 0; i < nChange; i++ {
 		p := map[string]int64{"docs": int64(docs) / 2, "p": ps[i%len(ps)]}
 		if i%4 == 3 {
 			p["allconfigs"] = 1
+		}
+		if i%2 == 0 {
+			p["rewrite"] = 1
 		}
 		cs = append(cs, fw.Case{Kind: "change", Seed: gen.Sub(seed, "c05change", i), P: p})
 	}
@@ -2544,7 +2634,7 @@ func init() {
 		ID:    "C05",
 		Level: "exploration",
 		Rule: "typed osmjson document models (every optional key a present/absent bit) from the harness generator: (a) fixed minimal documents; (b) all 32 combinations of generator/copyright/attribution/license/bounds for each version spelling (absent, number, string, null); " +
-			"(c) per element kind every optional part alone and all-but-it; (c') boundary values: on the value side every operator of a fixed table (non-nil pointer to an all-zero struct for top-level / way / relation bounds, committed, discussion, nested change and its blocks; empty but non-nil slices; zero ids, versions, coordinates, timestamps; empty strings; all-zero elements and members) alone, combined with an all-zero top-level bounds, and all at once, on four base containers, each as osm.OSM, as every block of an osm.Change and element by element; on the document side written values drawn as 0 / \"\" / [] / {} (bounds with members left out) with probability 15-100 %; (c3) forms: osm.OSM, osm.Change, every element kind, Tags, WayNodes, Members, Date (generated and zero values) marshalled as pointer, plain value, struct field by value, field of a pointed-to struct, map value, slice element, array element by value and inside interface{} (slice, map, field), through json.Marshal and through the installed codec itself; shape + round trip of the part that is the value, and equality with the pointer form; (c4) null as the third state of optional members of independently written documents (top level asserted, element members recorded); (c5) element counts at and around powers of two from 255 to 8193 (thorough 65537), as OSM documents and change blocks; (c'') retained output: every MarshalJSON method of the library (OSM, Tags, WayNodes, Members, Date) called directly, the bytes kept while other values are marshalled, then checked unchanged and still denoting the original; concurrent: 16 goroutines marshalling / unmarshalling their own documents at once, one phase per codec configuration (codec installed before the goroutines start), plain and race builds; (d) PRNG documents over kind masks, presence probabilities 0..100 %, 0-12 elements, arbitrary UTF-8 incl. control characters, negative and >2^40 ids, equivalent float and RFC 3339 spellings, unknown keys at every level; (e) change documents. " +
+			"(c) per element kind every optional part alone and all-but-it; (c') boundary values: on the value side every operator of a fixed table (non-nil pointer to an all-zero struct for top-level / way / relation bounds, committed, discussion, nested change and its blocks; empty but non-nil slices; zero ids, versions, coordinates, timestamps; empty strings; all-zero elements and members) alone, combined with an all-zero top-level bounds, and all at once, on four base containers, each as osm.OSM, as every block of an osm.Change and element by element; on the document side written values drawn as 0 / \"\" / [] / {} (bounds with members left out) with probability 15-100 %; (c3) forms: osm.OSM, osm.Change, every element kind, Tags, WayNodes, Members, Date (generated and zero values) marshalled as pointer, plain value, struct field by value, field of a pointed-to struct, map value, slice element, array element by value and inside interface{} (slice, map, field), through json.Marshal and through the installed codec itself; shape + round trip of the part that is the value, and equality with the pointer form; (c4) null as the third state of optional members of independently written documents (top level asserted, element members recorded); (c5) element counts at and around powers of two from 255 to 8193 (thorough 65537), as OSM documents and change blocks; (c6) every instant carried in a non-UTC location (+09:00, -05:30, +05:45, time.Local set to a non-UTC zone for the case) and a rewrite flow that marshals what was decoded from the independent document and reads it again; (c'') retained output: every MarshalJSON method of the library (OSM, Tags, WayNodes, Members, Date) called directly, the bytes kept while other values are marshalled, then checked unchanged and still denoting the original; concurrent: 16 goroutines marshalling / unmarshalling their own documents at once, one phase per codec configuration (codec installed before the goroutines start), plain and race builds; (d) PRNG documents over kind masks, presence probabilities 0..100 %, 0-12 elements, arbitrary UTF-8 incl. control characters, negative and >2^40 ids, equivalent float and RFC 3339 spellings, unknown keys at every level; (e) change documents. " +
 			"Each model is written by the independent writer (shuffled keys, white space, \\u escapes) and unmarshalled, and the value it denotes (plus way-node annotations) is marshalled, shape-checked on a generic parse and unmarshalled again; every step under the default and the recording user codec (a quarter of the cases also with only one of the two hooks installed). " +
 			"One evaluation = one (model, flow, configuration); a signature is (flow, configuration, version spelling, top-level presence mask, bounds, unknown keys, element kinds present).",
 		Assumptions: []string{
